@@ -29,6 +29,7 @@ var controls = []control{
 	}, "C17.store", []string{"violated"}},
 	{"truncating re-slice", []string{"C16"}, func(c *flow.Ctx, p *load.Prog) { c.RuleAppendOnly(p.Func("ctl", "FormatTruncate")) }, "C16.append", []string{"violated"}},
 	{"prefix overwrite", []string{"C16"}, func(c *flow.Ctx, p *load.Prog) { c.RuleAppendOnly(p.Func("ctl", "FormatOverwrite")) }, "C16.append", []string{"violated"}},
+	{"buffer retained in a global", []string{"C16"}, func(c *flow.Ctx, p *load.Prog) { c.RuleAppendOnly(p.Func("ctl", "FormatRetain")) }, "C16.append", []string{"violated"}},
 	{"prefix read", []string{"C16"}, func(c *flow.Ctx, p *load.Prog) { c.RuleBufIndependent(p.Func("ctl", "FormatPeek")) }, "C16.indep", []string{"violated"}},
 	{"explicit panic", []string{"C18"}, func(c *flow.Ctx, p *load.Prog) {
 		c.RuleNoPanicSites(map[*ssa.Function]bool{p.Func("ctl", "ParsePanics"): true}, nil)
